@@ -61,7 +61,7 @@ class Module(object):
             # module-level closures built by a factory are put back as plain functions before anything is indexed
             from . import refnames as _rn
             try:
-                self.specialised = _rn.specialise_factories(self.tree)
+                self.specialised = _rn.specialise_factories(self.tree) + _rn.expand_module_updates(self.tree)
             except RecursionError:
                 self.specialised = 0
         self.digest = hashlib.sha256(src.encode("utf-8")).hexdigest()[:16]
